@@ -356,6 +356,13 @@ func genCoffCase(r *Rand, prop string, reserved []string, big bool) *CoffCase {
 			names = append(names, "_many"+genIdent(r, Pick(r, []int{3, 4, 10}), nil, taken))
 		}
 	}
+	if r.Chance(1, 15) {
+		// very long GLOBAL lists: the symbol table passes 255/256 and 511/512 records (8 fixed records + the .file
+		// continuation records + one per name), where a counter narrower than the header field would wrap
+		for i, n := 0, Pick(r, []int{230, 240, 247, 248, 249, 255, 256, 257, 300, 504, 520, 700}); i < n; i++ {
+			names = append(names, fmt.Sprintf("_v%d%s", i, genIdent(r, Pick(r, []int{1, 3, 9}), nil, taken)))
+		}
+	}
 	ng := r.Intn(4) + 1
 	c.Globals = make([][]string, ng)
 	c.GPos = make([]int, ng)
@@ -440,7 +447,7 @@ func runCoffProp(prop string) func(env *Env, rep *Report) {
 			cases = append(cases, genCoffCase(r, prop, reserved, prop == "C08" && i%40 == 7))
 		}
 		if prop == "C08" {
-			rep.Rule = "seeded `[FORMAT \"WCOFF\"]` programs: .text from empty to > 64 KiB, GLOBAL lists of 0..45 names of length 1..40 (including exactly 8 and 9) that are defined, undefined, declared twice, or prefixes/infixes/extensions of one another, spread over 1-4 GLOBAL statements placed before, inside and after the code, with/without [FILE] of length 0..64 (including 17, 18, 19, 36; a third of the longer ones paths with / . - and blanks), [SECTION .text] up front in a third and a [SECTION .data]/[SECTION .bss] line at a seeded place in a quarter of the programs; " +
+			rep.Rule = "seeded `[FORMAT \"WCOFF\"]` programs: .text from empty to > 64 KiB, GLOBAL lists of 0..45 names (one case in fifteen 230..700 names, so that the symbol table passes 256 and 512 records) of length 1..40 (including exactly 8 and 9) that are defined, undefined, declared twice, or prefixes/infixes/extensions of one another, spread over 1-4 GLOBAL statements placed before, inside and after the code, with/without [FILE] of length 0..64 (including 17, 18, 19, 36; a third of the longer ones paths with / . - and blanks), [SECTION .text] up front in a third and a [SECTION .data]/[SECTION .bss] line at a seeded place in a quarter of the programs; " +
 				"oracle: a strict COFF layout validator (machine, 3 section headers, every pointer/size inside the file and non-overlapping, symbol count = records incl. auxiliaries, string-table length = bytes remaining = file end, long-name offsets NUL-terminated inside the table) plus Go's debug/pe reading the same sections and symbol names; distinct = (labels, globals bucket, statements, file-name bucket, size) cells"
 		} else {
 			rep.Rule = "seeded 32-bit programs from the size-clean pool with labels; a seeded subset and order of the labels is declared GLOBAL (before/after/inside the definitions, in 1-4 statements, names 1..40 long incl. 8/9 and prefix/infix families), with undefined and doubly declared names and [FILE] names of length 0..64 (bare names and paths), [SECTION] lines as in C08; each source is assembled with and without the FORMAT line; " +
